@@ -80,7 +80,7 @@ class Check:
         self.known_lines: list[str] = []
         self.proof_status: dict[str, Any] = {}
         self.known = json.loads((VERIF / "known_findings.json").read_text())["findings"]
-        self.budget_s = float(os.environ.get("VERIF_BUDGET_S", "80" if tier == "quick" else "840"))
+        self.budget_s = float(os.environ.get("VERIF_BUDGET_S", "110" if tier == "quick" else "840"))
         self.replay_dir = VERIF / "replays" / pid
         self.broken: list[dict] = []      # proof obligations / correspondence points that no longer check
         self.failing: list[dict] = []     # concrete failing inputs of the property on the real code
